@@ -48,6 +48,20 @@ impl Escaper {
         }
     }
 
+    /// Returns provided byte sequence in the form that an `(escaped)` expectation
+    /// resolves back into exactly these bytes (without the marker itself): all
+    /// non-printable characters and all backslashes are escaped
+    pub fn escaped_expression(&self, raw: &[u8]) -> String {
+        let escaped = self.escaped_printable(raw);
+        let escaped = if escaped == String::from_utf8_lossy(raw) {
+            // nothing was escaped, so the backslashes were not escaped either
+            escaped.replace('\\', "\\\\")
+        } else {
+            escaped
+        };
+        protect_escaped_expression(&escaped)
+    }
+
     pub fn has_unprintable(&self, raw: &[u8]) -> bool {
         match self {
             Escaper::Ascii => has_unprintable_ascii(raw),
